@@ -12,7 +12,7 @@ META = {
     "text": "GoAwayClient.tla models NewStream admission and handleGoAway of the client transport (previous GOAWAY id, upper/lower "
             "limits, unprocessed marking, the larger-second-id connection error, close when idle) against a server that writes one or "
             "two GOAWAYs with ids from {0,1,3,5,2^31-1}; GoAwayServer.tla models operateHeaders / Drain / the two-step GOAWAY + PING / "
-            "handler completion. TLC checks the clauses of the property exhaustively (3 streams) with four negative controls, and "
+            "handler completion. TLC checks the clauses of the property exhaustively (3 streams) with five negative controls (the fifth: operateHeaders releases maxStreamMu between recording the id and registering the stream, so the final GOAWAY slips in between), and "
             "every transition of both state graphs becomes a scenario: the client scenarios run on a real http2Client against a "
             "scripted raw HTTP/2 server, the server scenarios on a real grpc.Server (GracefulStop, PING ack or the 5 s timer in "
             "virtual time) against a scripted raw client, all inside testing/synctest; TLC validates the recorded stream outcomes "
@@ -25,8 +25,12 @@ META = {
             "id the transport is closed at quiescence. 'Retried transparently' is read through Unprocessed() in-package, not through "
             "a grpc.ClientConn retry. Covered, server: handler never started twice, never for an id above the final GOAWAY id, "
             "max accepted id <= final id <= max id the client had sent when the final GOAWAY arrived (equality is drift only), no "
-            "handler context cancelled during the drain, every started handler's trailers are read by the client before EOF. NOT "
-            "covered: gated interleavings inside handleGoAway / operateHeaders (no hooks; bursts of driver steps race freely), "
+            "handler context cancelled during the drain, every started handler's trailers are read by the client before EOF, and "
+            "every stream the client opened with an id at or below the final GOAWAY id is answered (trailers or RST_STREAM), never "
+            "silently dropped - including the race 'HEADERS between id recorded and stream registered while loopy produces the final "
+            "GOAWAY', forced with the hook point h2s.beforeRegister (reader held there; final GOAWAY triggered by the PING ack "
+            "sent just before the HEADERS, or by the 5 s timer at its exact virtual instant). NOT "
+            "covered: other gated interleavings inside handleGoAway / operateHeaders (bursts of driver steps race freely), "
             "even GOAWAY ids, GOAWAY error codes other than NO_ERROR, more than one connection per server, streams refused by "
             "MaxConcurrentStreams during the drain.",
     "technique": "TLA+ specs + TLC exhaustive check; TLC state-graph edge cover projected on driver steps and run on a real client "
@@ -65,9 +69,43 @@ def sstep_of(state_text, lab):
         return {"a": "stop"}
     if name == "SPingAckOrTimer":
         return {"a": "pong"}
-    if name in ("SAccept", "SFinal"):
-        return {"a": "internal"}
+    if name in ("SRecord", "SRegister", "SFinalBegin", "SFinalWrite"):
+        return {"a": "internal", "n": name}
     raise Inconclusive("unknown server action label " + lab)
+
+
+def sproject(beh):
+    """Server scenarios.  Besides the projection on driver steps: when the model lets loopy reach the final
+    GOAWAY (SFinalBegin) while a HEADERS frame is between SRecord and SRegister, the corresponding send becomes a
+    race send (the driver holds the server's reader at the hook point h2s.beforeRegister) and a release step is
+    placed after the step that triggers the final GOAWAY (PING ack / timer), or after the send if the trigger
+    came first."""
+    out, inrec, lastsend = [], False, None
+    for st in beh:
+        if st["a"] == "internal":
+            if st["n"] == "SRecord":
+                inrec = True
+            elif st["n"] == "SRegister":
+                inrec = False
+            elif st["n"] == "SFinalBegin" and inrec and lastsend is not None:
+                out[lastsend]["race"] = 1
+            if out:
+                out[-1]["w"] = 1
+        else:
+            s = dict(st)
+            s["w"] = 0
+            out.append(s)
+            if s["a"] == "send":
+                lastsend = len(out) - 1
+    for k, s in enumerate(out):
+        if s.get("race"):
+            trig = [i for i, x in enumerate(out) if x["a"] == "pong"]
+            pos = trig[0] if trig and trig[0] > k else k
+            for x in out[k:pos + 1]:
+                x["w"] = 0
+            out.insert(pos + 1, {"a": "release", "w": 1})
+            break
+    return out
 
 
 def project(beh):
@@ -83,7 +121,7 @@ def project(beh):
     return out
 
 
-def scenarios(ctx, module, cfg, step_of, limit):
+def scenarios(ctx, module, cfg, step_of, limit, project=project):
     g = ctx.dump_graph(module, cfg, workers=4)
     behs = ctx.edge_cover(g, step_of)
     seen, rows = set(), []
@@ -114,11 +152,13 @@ def summary(out):
 def run(ctx):
     # (a) design level: the graph dumps carry every invariant of their scope (= exhaustive check)
     crows = scenarios(ctx, "GoAwayClient", "GoAwayClientMC.cfg", cstep_of, ctx.pick(1200, 6000))
-    srows = scenarios(ctx, "GoAwayServer", "GoAwayServerMC.cfg", sstep_of, None)
+    srows = scenarios(ctx, "GoAwayServer", "GoAwayServerMC.cfg", sstep_of, None, project=sproject)
+    ctx.log("server scenarios with a HEADERS / final-GOAWAY race: %d" % sum(1 for p in srows if any(s.get("race") for s in p)))
     ctx.neg("GoAwayClient", "GoAwayClientNeg1.cfg", expect="I_FailHigh", workers=2)
-    ctx.neg("GoAwayServer", "GoAwayServerNeg3.cfg", expect="P_ServeBelow", workers=2)
+    ctx.neg("GoAwayServer", "GoAwayServerNeg5.cfg", expect="I_NoSilentDrop", workers=2)
     if not ctx.quick():
         ctx.neg("GoAwayClient", "GoAwayClientNeg2.cfg", expect="I_NoAdmitAfter", workers=2)
+        ctx.neg("GoAwayServer", "GoAwayServerNeg3.cfg", expect="P_ServeBelow", workers=2)
         ctx.neg("GoAwayServer", "GoAwayServerNeg4.cfg", expect="I_AcceptUntilFinal", workers=2)
 
     # (b) client half on the real http2Client
